@@ -1165,7 +1165,9 @@ func ruleT12(c *Ctx, id string) {
 	{
 		nA := 0
 		for _, sc := range scopesOf(ga) {
-			for _, a := range P.CallsIn(sc.Fn, func(g *ssa.Function) bool { return g != nil && g.Name() == "AllocInode" && funcPkg(g) != nil && strings.HasSuffix(funcPkg(g).Path(), "/fstxn") }) {
+			for _, a := range P.CallsIn(sc.Fn, func(g *ssa.Function) bool {
+				return g != nil && g.Name() == "AllocInode" && funcPkg(g) != nil && strings.HasSuffix(funcPkg(g).Path(), "/fstxn")
+			}) {
 				nA++
 				g := guardedUp(scopesOf(ga), sc, a.Block(), func(sub Subst) func(Cond) (bool, bool) {
 					return func(cd Cond) (bool, bool) {
